@@ -240,3 +240,31 @@ def floors(st, tier):
     if tier == 'thorough' and st['classes'].get('preimage histogram over all first words (24-bit)', 0) == 0:
         out.append('24-bit histograms not observed')
     return out
+
+
+def _aux_requests(cfg, rng, n):
+    """small mixed workload for the interpreter / sanitizer passes: slice fills of length 0, 1, 7, 64, Standard, ranges"""
+    B = cfg.bytes
+    k = 0
+    while k < n:
+        for L in (0, 1, 7, 64 if B <= 40 else 2):
+            yield 'fill', (bytes(rng.getrandbits(8) for _ in range(L * B)), L)
+            k += 1
+        yield 'std', (bytes(rng.getrandbits(8) for _ in range(2 * B)),)
+        low, high = bounds(cfg, rng)
+        yield 'range', (low, high, words_for(cfg, rng, low, high))
+        k += 2
+
+
+def extra_passes(runmod, tier, seed, st, jobs):
+    import aux
+    cov = {}
+    small = [c for c in configs(tier) if core.Cfg(c).bits <= 512]
+    # ASan: full speed, every configuration
+    cov['asan_pass'] = aux.run_pass(runmod, __import__('props.c20', fromlist=['x']), 'asan', tier, seed, st, configs(tier), 60 if tier == 'quick' else 600, jobs,
+                                    reqgen=_aux_requests)
+    if tier == 'thorough':
+        me = __import__('props.c20', fromlist=['x'])
+        cov['miri_pass'] = aux.run_pass(runmod, me, 'miri', tier, seed, st, small, 40, jobs, reqgen=_aux_requests, chunk=40)
+        cov['miri_big_endian_pass'] = aux.run_pass(runmod, me, 'miri-be', tier, seed, st, small, 40, jobs, reqgen=_aux_requests, chunk=40)
+    return cov
